@@ -1,6 +1,6 @@
 SPECIFICATION Spec
 CONSTANTS
-  Keys = {"rsa4096", "rsa3072p", "ed25519", "ecdsa"}
+  Keys = {"rsa4096", "rsa3072p", "ed25519", "ecdsa", "assetsub"}
   MaxLen = 5
 INVARIANTS FoldAgrees AtMostOne LastSignerWins ClearedVerifiesNothing
 CHECK_DEADLOCK FALSE
